@@ -459,7 +459,10 @@ class MSt:
 class MddMachine(Machine):
     name = 'mdd'
 
-    def __init__(self, doms=(3, 2), max_handles=3, max_ext=2):
+    def __init__(self, doms=(3, 2), max_handles=3, max_ext=2, focus=False,
+                 seeds=('fresh', 'rev', 'two')):
+        self.focus = focus      # cache/number re-use alphabet only
+        self._seeds = tuple(seeds)
         self.doms = doms
         self.names = ['p', 'q', 'r'][:len(doms)]
         self.IU = IntUniverse(list(zip(self.names, doms)))
@@ -467,16 +470,18 @@ class MddMachine(Machine):
         self.max_ext = max_ext
 
     def seed_labels(self):
-        return ['fresh', 'rev', 'two']
+        return list(self._seeds)
 
     def seed(self, label):
         n = len(self.doms)
         lv = list(range(n)) if label != 'rev' else list(reversed(range(n)))
         dvars = {v: dict(level=lv[i], len=self.doms[i]) for i, v in enumerate(self.names)}
         st = MSt(_mdd.MDD(dvars), [])
-        if label == 'two':
+        if label in ('two', 'three'):
             self.apply(st, ('lit', self.names[0], 0))
             self.apply(st, ('lit', self.names[1], 1))
+        if label == 'three':
+            self.apply(st, ('and', 0, 1, 'hold'))
         return st
 
     def actions(self, st):
@@ -490,21 +495,35 @@ class MddMachine(Machine):
                     acts.append(('lit', v, j))
             for i in idx:
                 for j in idx:
+                    if self.focus and i > j:
+                        continue
                     acts.append(('and', i, j, 'hold'))
-                    acts.append(('xor', i, j, 'hold'))
+                    if not self.focus:
+                        acts.append(('xor', i, j, 'hold'))
             for i in idx:
                 acts.append(('not', i))
+            if self.focus:
+                # an operation whose OPERAND is an unreferenced temporary
+                for i in idx:
+                    for j in idx:
+                        for k in idx:
+                            if i < j:
+                                acts.append(('nest', i, j, k))
         for i in idx:
             for j in idx:
+                if self.focus and i > j:
+                    continue
                 acts.append(('or', i, j, 'drop'))
-                for k in idx:
-                    if len({i, j, k}) == min(3, len(h)):
-                        acts.append(('ite', i, j, k))
-            if h[i][1] < self.max_ext:
+                if not self.focus:
+                    for k in idx:
+                        if len({i, j, k}) == min(3, len(h)):
+                            acts.append(('ite', i, j, k))
+            if h[i][1] < self.max_ext and not self.focus:
                 acts.append(('incref', i))
             acts.append(('decref', i))
         acts.append(('collect',))
-        acts.append(('collect_roots',))
+        if not self.focus:
+            acts.append(('collect_roots',))
         return acts
 
     def _hold(self, st, r, mask):
@@ -541,6 +560,14 @@ class MddMachine(Machine):
         elif k == 'not':
             r = m.apply('not', h[a[1]][0])
             self._hold(st, r, F ^ h[a[1]][2])
+        elif k == 'nest':
+            _, i, j, kk = a
+            t = m.apply('or', h[i][0], h[j][0])
+            r = m.apply('and', t, h[kk][0])
+            want = (h[i][2] | h[j][2]) & h[kk][2]
+            if check and md(r) != want:
+                raise Violation('MDD apply on a temporary operand denotes the wrong function')
+            self._hold(st, r, want)
         elif k == 'ite':
             _, i, j, kk = a
             r = m.ite(h[i][0], h[j][0], h[kk][0])
@@ -633,7 +660,8 @@ _by_task = sweep.replay_by_task(dispatch)
 def replay(case):
     if 'trace' in case:
         doms = tuple(case.get('doms', (3, 2)))
-        return MddMachine(doms).replay(case)
+        focus = 'cache' in case.get('machine', '')
+        return MddMachine(doms, focus=focus, seeds=('fresh', 'rev', 'two', 'three')).replay(case)
     return _by_task(case)
 
 
@@ -644,10 +672,13 @@ def main(tier, t0):
     run.close_pool()
     total = dict(states=0, transitions=0, validated=0)
     bounds = {}
-    for doms, depth in (((3, 2), 4 if tier == 'quick' else 5),
-                        ((2, 2, 3), 3 if tier == 'quick' else 4)):
-        mach = MddMachine(doms)
-        mach.name = 'mdd/%s' % 'x'.join(map(str, doms))
+    q = tier == 'quick'
+    for doms, depth, focus, seeds in (
+            ((3, 2), 4 if q else 5, False, ('fresh', 'rev', 'two')),
+            ((2, 2, 3), 3 if q else 4, False, ('fresh', 'rev', 'two')),
+            ((3, 2), 5 if q else 7, True, ('two', 'three'))):
+        mach = MddMachine(doms, focus=focus, seeds=seeds)
+        mach.name = 'mdd%s/%s' % ('-cache' if focus else '', 'x'.join(map(str, doms)))
         r = run.Report()
         res = bfs(mach, depth, r)
         run.close_pool()
